@@ -330,6 +330,19 @@ def adjust_byte_frames(ctx, chk):
             continue
         where = fn_where(fn)
         if name in ("aaa", "aas"):
+            # "the high-order half-byte of AL is zeroed" -- whether the adjustment is made or not
+            from domains import balts
+            s0_ = summarize_fn(ctx, fn)
+            ax0 = s0_.regs["ax"]
+            if ax0.kind == "int":
+                hn = [balts(b) for b in ax0.bits[4:8]]
+                if all(a_ == frozenset((0,)) for a_ in hn):
+                    chk.ok("C03.R10", f"{name}:al-high-nibble", "AL bits 4..7 are 0 on every path")
+                elif all(a_ is not None for a_ in hn):
+                    chk.violation("C03.R10", name, "al-high-nibble-kept", f"{name.upper()}: on some path bits 4..7 of AL keep their old value; the instruction zeroes the "
+                                  f"high-order half-byte of AL whether it adjusts or not", where, "AL=15h, AF=0: AL must become 05h")
+                else:
+                    chk.undecided_("C03.R10", f"{name}:al-high-nibble", "AL's high nibble is not tracked exactly")
             for af in (1, 0):
                 s_ = summarize_fn(ctx, fn, assume={("flag", FBIT["AF"]): af})
                 ax = s_.regs["ax"]
@@ -361,6 +374,35 @@ def adjust_byte_frames(ctx, chk):
                 continue
             hi, lo = ax_deps(ax.bits[8:16]), ax_deps(ax.bits[0:8])
             if name in ("daa", "das"):
+                # the second (high digit) test of DAA/DAS looks at AL *after* the low-digit adjustment: `if AL > 9Fh or CF`.
+                # Refuted when the compared value is, in closed form, the AL the instruction was entered with.
+                from domains import Lin
+                try:
+                    sw_ = summarize_fn(ctx, fn, record_switch=True)
+                    rg_ = sw_.I.atom_ranges()
+                    entry_al = Lin.atom("ax").mod(256).simplify(rg_)
+                    verdict_ = None
+                    for e_ in sw_.I.events:
+                        if e_.kind != "switch" or e_.fn != fn["name"]:
+                            continue
+                        pr_ = getattr(e_.val, "pred", None)
+                        if pr_ is None or pr_[0] != "cmp" or pr_[1] not in ("Gt", "Ge", "Lt", "Le"):
+                            continue
+                        for x_, c_ in ((pr_[2], pr_[3]), (pr_[3], pr_[2])):
+                            if c_.kind == "int" and c_.is_const() and 0x90 <= c_.lo <= 0xA0 and x_.kind == "int":
+                                if x_.aff is not None and x_.aff.simplify(rg_) == entry_al:
+                                    verdict_ = False
+                                elif verdict_ is None:
+                                    verdict_ = True
+                    if verdict_ is False:
+                        chk.violation("C03.R10", name, "high-digit-test-on-entry-al", f"{name.upper()}: the high-digit test (`AL > 9Fh or CF`) compares the AL the instruction "
+                                      f"was entered with; the manual tests AL after the low-digit adjustment of 6", where, "AL=05h, AF=1, CF=0")
+                    elif verdict_:
+                        chk.ok("C03.R10", f"{name}:high-digit-test", "the compared AL is not the entry value in closed form (it went through the first adjustment)")
+                    else:
+                        chk.undecided_("C03.R10", f"{name}:high-digit-test", "no comparison of AL with 9Fh/A0h found among the helper's branches")
+                except Unsupported as e_:
+                    chk.undecided_("C03.R10", f"{name}:high-digit-test", str(e_))
                 if all(ax.bits[i] == ("c", "ax", i) for i in range(8, 16)):
                     chk.ok("C03.R10", f"{name}:ah", "AH is an exact copy")
                 elif any(ax.bits[i] in (0, 1) or (ax.bits[i][0] in ("c", "n") and ax.bits[i] != ("c", "ax", i)) for i in range(8, 16)):
@@ -641,6 +683,16 @@ def aam_aad_value_rule(ctx, chk):
                 for bit, (path, pol) in bool_flag_map(ctx, e).items():
                     v = e.args[path[0]] if len(path) == 1 else e.args[path[0]].fields[path[1]]
                     decided[bit] = (v, pol)
+        if FBIT["PF"] in decided:
+            from rules_c01 import parity_verdict
+            pv, ppol = decided[FBIT["PF"]]
+            k_, t_ = parity_verdict(ctx, s, pv, ppol, new_al, ranges)
+            if k_ == "ok":
+                chk.ok("C03.R12", f"{name}:PF", t_)
+            elif k_ == "bad":
+                chk.violation("C03.R12", name, "PF-condition", f"{fn['name']}: {t_}", where)
+            else:
+                chk.undecided_("C03.R12", f"{name}:PF", t_)
         spec = {"ZF": ("zero", new_al.simplify(ranges)), "SF": ("pos", new_al.sub(Lin(127)).simplify(ranges))}
         for f in ("ZF", "SF"):
             u = f"{name}:{f}"
